@@ -13,7 +13,7 @@ import (
 func init() { register("C17", true, runC17) }
 
 func runC17(c *Check) {
-	c.Explanation = "Decides only the structural clauses of C17: every slice-typed field of the flame-graph data model (StackSet.Stacks/Sources, Stack.Sources, StackSource.Display/Places) is given a non-nil value wherever such a value is built and is only ever re-assigned non-nil values (literal, make, append with elements, or a helper all of whose returns are non-nil), and no such field is tagged omitempty or '-' for JSON, so the client never sees null or a missing array (R1, R2); the page receives exactly json.Marshal of Report.Stacks() (R3); every stack starts with the synthetic root source 0 (R4); fillPlaces records a stack at most once per source, at the first occurrence, using a fresh seen-set per stack (R5). Not decided: the index and sum invariants (values, self, places completeness)."
+	c.Explanation = "Decides only the structural clauses of C17: every slice-typed field of the flame-graph data model (StackSet.Stacks/Sources, Stack.Sources, StackSource.Display/Places) is given a non-nil value wherever such a value is built and is only ever re-assigned non-nil values (literal, make, append with elements, or a helper all of whose returns are non-nil), and no such field is tagged omitempty or '-' for JSON, so the client never sees null or a missing array (R1, R2); the page receives exactly json.Marshal of Report.Stacks() (R3); every stack starts with the synthetic root source 0 (R4); fillPlaces records a stack at most once per source, at the first occurrence, using a fresh seen-set per stack (R5); the source memo key is computed from name, file, line, column and inlined flag on every path (R6); each sample adds its value exactly once to the self value of the last source of its stack (R7). Not decided: the index and sum invariants (values, self, places completeness)."
 	p := c.P
 	sp := p.SSAPkg("internal/report")
 	if sp == nil {
@@ -304,6 +304,64 @@ func runC17(c *Check) {
 		if n != 1 {
 			c.undecided("C17-R6", "intern", p.relFile(mis.Pos()), fmt.Sprintf("expected one memo-table lookup in makeInitialStacks, found %d", n))
 		}
+		c.selfAccumulation(mis)
+	}
+}
+
+// selfAccumulation (R7): a source's self value is the sum of the stacks it terminates.
+// The addition to StackSource.Self in makeInitialStacks happens exactly once per sample
+// (directly in the sample loop, on every path through an iteration) and its target is the
+// last element of that sample's stack (index len-1), whatever the frames were: for an
+// empty stack that is the root, for a leaf location without lines its caller.
+func (c *Check) selfAccumulation(mis *ssa.Function) {
+	p := c.P
+	n := 0
+	forEachFuncAndAnon(mis, func(g *ssa.Function) {
+		for _, b := range g.Blocks {
+			for _, ins := range b.Instrs {
+				st, ok := ins.(*ssa.Store)
+				if !ok {
+					continue
+				}
+				fa, ok := st.Addr.(*ssa.FieldAddr)
+				if !ok {
+					continue
+				}
+				if T, F := fieldOf(fa.X.Type(), fa.Field); T != "report.StackSource" || F != "Self" {
+					continue
+				}
+				if _, fresh := fa.X.(*ssa.Alloc); fresh {
+					continue
+				}
+				n++
+				key := "self"
+				pos := p.relFile(st.Pos())
+				// which source: Sources[idx] with idx = stack.Sources[len-1]
+				lastIdx := false
+				if ia, ok := fa.X.(*ssa.IndexAddr); ok {
+					if ld, ok := ia.Index.(*ssa.UnOp); ok && ld.Op == token.MUL {
+						if ia2, ok := ld.X.(*ssa.IndexAddr); ok && isLenMinus(ia2.Index) {
+							if k, ok := constInt(ia2.Index.(*ssa.BinOp).Y); ok && k == 1 {
+								lastIdx = true
+							}
+						}
+					}
+				}
+				switch {
+				case nestingDepth(b) != 1:
+					c.bad("C17-R7", key, pos, "the self value is added inside the frame loops of makeInitialStacks instead of once per sample: samples whose innermost position has no frame (empty stack, leaf location without lines) credit nobody, so self values no longer sum to the stack values")
+				case skippableInIteration(b):
+					c.bad("C17-R7", key, pos, "a path through one sample of makeInitialStacks skips the addition to Self")
+				case !lastIdx:
+					c.bad("C17-R7", key, pos, "the self value is not credited to the last source of the sample's stack (stack.Sources[len-1])")
+				default:
+					c.ok("C17-R7", key, pos, "each sample's value is added once to the self value of the source that ends its stack", "the store is directly in the sample loop, unskippable, and targets Sources[stack.Sources[len-1]]")
+				}
+			}
+		}
+	})
+	if n != 1 {
+		c.undecided("C17-R7", "self", p.relFile(mis.Pos()), fmt.Sprintf("expected one addition to StackSource.Self in makeInitialStacks, found %d", n))
 	}
 }
 
